@@ -100,12 +100,12 @@ HARNESSES += [
     for f in ["new", "to", "from"]
 ]
 HARNESSES += [
-    H(f"c15c01c02_pp_{n}_q", ["C15", "C01", "C02"], weight=15, unwind_is_violation=True, unwind_replay="pp_hang",
+    H(f"c15c01c02_pp_{n}_q", ["C15", "C01", "C02", "C17"], weight=15, unwind_is_violation=True, unwind_replay="pp_hang",
       allow_unreachable_w=n in ("endif", "define", "plain", "eof"),
       fallback="c15c01c02_pp_define_s" if n == "define" else None, timeout=600 if n == "define" else 900)
     for n in ["ifdef", "ifndef", "else", "endif", "define", "plain", "eof"]
 ] + [
-    H("c15c01c02_pp_passthrough", ["C15", "C01", "C02"], weight=15),
+    H("c15c01c02_pp_passthrough", ["C15", "C01", "C02", "C17"], weight=15),
     H("c15c01c02_pp_define_s", ["FALLBACK"], weight=10, timeout=1500),
     H("c15_pp_unterminated_enabled", ["C15"], weight=15),
 ] + [
